@@ -6,6 +6,7 @@ import viewgen
 import vlib
 from vlib import glist
 import c08
+import susrender
 
 PID = "C12"
 THEOREMS = ["C12_keys_in_creation_order", "C12_keys_unique", "C12_reinit_fresh"]
@@ -94,6 +95,65 @@ def main(argv):
     except RuntimeError as e:
         broken.append("model evaluation: " + str(e)[-500:])
         chk.obligation("model evaluation", False, str(e))
+    # ---- part 2: sequences mixing sync, blocking and streaming renders on one thread ----
+    shapes = susrender.shapes()
+    mixed = []
+    for _ in range(150 if a.tier == "quick" else 1500):
+        pool = []
+        for _ in range(rng.randint(1, 2)):
+            st, v = viewgen.random_view(rng, 2)
+            pool.append(("sync", viewgen.sx_state(st), viewgen.sx_view(v)))
+        for _ in range(rng.randint(1, 3)):
+            vs = rng.choice(shapes)
+            av = vs[0] if len(vs) == 1 else ("el", "main", vs)
+            gs = sorted(set(g for x in vs for g in susrender.gates(x)))
+            sched = rng.sample(gs, len(gs))
+            if rng.random() < 0.3 and sched:
+                sched = sched[:-1]                    # a render left with pending tasks
+            pool.append(("sus", rng.choice(["sync", "blocking", "streaming"]), susrender.sx(av), "(%s)" % " ".join(map(str, sched))))
+        mixed.append([rng.choice(pool) for _ in range(rng.randint(3, 6))])
+    text = "\n".join("(seq %s)" % " ".join("(%s)" % " ".join(e) for e in s) for s in mixed) + "\n"
+    rc, so, se = vlib.run_driver(binp, text)
+    mblocks = so.rstrip("\n").split("\n==\n")
+    if rc != 0 or len(mblocks) != len(mixed):
+        chk.violation({"property": PID, "broken": "driver run (mixed modes)", "rc": rc, "stderr": se[-1500:]}, no_input=True)
+        return chk.finish()
+    mfail = []
+    for s, b in zip(mixed, mblocks):
+        lines = b.split("\n")
+        seen, counts = {}, {}
+        key = " ".join("(%s)" % " ".join(e) for e in s)
+        nontriv = False
+        for e, line in zip(s, lines):
+            if line == "PANIC":
+                mfail.append({"what": "render panicked", "sequence": key})
+                break
+            body, n = line.rsplit(" ", 1)
+            mode = e[0] if e[0] == "sync" else e[1]
+            counts.setdefault("streaming" if mode == "streaming" else "scoped", set()).add(n)
+            if e in seen:
+                nontriv = True
+                if seen[e] != body:
+                    mfail.append({"what": "same view and completion order rendered differently after a different history", "render": " ".join(e),
+                                  "first": seen[e][:400], "later": body[:400], "sequence": key})
+            seen[e] = body
+            # hydration keys: unique over everything one render emits, dense per suspense scope
+            hexes = re.findall(r"[0-9a-f]{8,}", body)
+            out = "".join(bytes.fromhex(h).decode("utf8", "replace") for h in hexes if len(h) % 2 == 0)
+            hks = [tuple(int(x) for x in m.split(".")) for m in re.findall(r' data-hk="(\d+\.\d+)"', out)]
+            if len(set(hks)) != len(hks):
+                mfail.append({"what": "hydration keys not unique within one render", "render": " ".join(e), "keys": hks})
+            for sc in set(k[0] for k in hks):
+                els = sorted(k[1] for k in hks if k[0] == sc)
+                if els != list(range(len(els))):
+                    mfail.append({"what": "hydration keys of a suspense scope are not dense from 0", "render": " ".join(e), "scope": sc, "keys": els})
+        for kind, c in counts.items():
+            if len(c) > 1:
+                mfail.append({"what": "live node count at the start of a render is not constant (%s renders)" % kind, "counts": sorted(c), "sequence": key})
+        chk.note_case("M" + key, nontriv)
+    chk.obligation("oracle: determinism, key discipline and constant node count over %d sequences mixing sync / blocking / streaming renders" % len(mixed),
+                   not mfail, str(mfail[:2]))
+    orfail += mfail
     chk.sample({"sequence_length": len(seqs[0]), "first_output": bytes.fromhex(blocks[0].split("\n")[0].split(" ")[0]).decode("utf8", "replace")[:300]})
     if orfail:
         orfail.sort(key=lambda o: len(str(o)))
